@@ -242,12 +242,13 @@ class Infeasible(Exception):
 
 
 class Frame:
-    __slots__ = ("id", "body", "depth")
+    __slots__ = ("id", "body", "depth", "ctx")
 
-    def __init__(self, fid, body, depth):
+    def __init__(self, fid, body, depth, ctx=None):
         self.id = fid
         self.body = body
         self.depth = depth
+        self.ctx = ctx          # call-site context of an inlined new helper: keeps the labels of two activations apart
 
 
 class Outcome:
@@ -316,6 +317,39 @@ def adt_base_name(tystr):
             s = s[4:]
     i = s.find("<")
     return s if i < 0 else s[:i]
+
+
+_KNOWN = None
+
+
+def _known_functions():
+    global _KNOWN
+    if _KNOWN is None:
+        import json, os
+        p = os.path.join(os.path.dirname(os.path.dirname(os.path.abspath(__file__))), "anchors", "known_functions.json")
+        try:
+            _KNOWN = set(json.load(open(p))["functions"])
+        except Exception:
+            _KNOWN = set()
+    return _KNOWN
+
+
+def with_new_helpers(prog, body):
+    """[body] + the workspace functions introduced by a refactoring (not in anchors/known_functions.json) that it
+    reaches through resolved calls: a syntactic rule about `body` has to look into them as well"""
+    known = _known_functions()
+    out = [body]
+    seen = {body.key}
+    work = [body]
+    while work and known:
+        b = work.pop()
+        for cs in b.calls():
+            for cb in prog.callees(cs):
+                if cb.key not in seen and cb.crate in ("stun_rs", "stun_agent") and cb.path not in known:
+                    seen.add(cb.key)
+                    out.append(cb)
+                    work.append(cb)
+    return out
 
 
 PURE_CALLEES = [
@@ -430,6 +464,12 @@ class Interp:
         fields = []
         for i, f in enumerate(var["fields"]):
             fl = "%s.%s" % (label, f["name"])
+            # the payload of an Option / Result is named the same way whether it is reached by a `match` (downcast)
+            # or through a modelled combinator / `?` (models.opt_cases, res_cases)
+            if name == "std::option::Option" and vix == 1:
+                fl = "%s.some" % label
+            elif name == "std::result::Result":
+                fl = "%s.%s" % (label, "ok" if vix == 0 else "err")
             fty = None
             if "ty" in f:
                 fty = TyRef(adt["types"], f["ty"])
@@ -932,11 +972,11 @@ class Interp:
         -> list of Outcome"""
         return self.call_body(body, args, st, 0)
 
-    def call_body(self, body, args, st, depth):
+    def call_body(self, body, args, st, depth, ctx=None):
         if depth > self.max_depth:
             raise Budget("call depth")
         self.frame_counter += 1
-        frame = Frame(self.frame_counter, body, depth)
+        frame = Frame(self.frame_counter, body, depth, ctx)
         self.stepped.add(body.path)
         st = st.fork()
         for i, a in enumerate(args):
@@ -1084,7 +1124,7 @@ class Interp:
                         tys.append(None)
                 cv = self.concretize(self.operand(frame, t["cond"], st), st)
                 st.effect(("assert", t["msg"], t.get("binop"), tuple(ops), tuple(tys),
-                           (cv.v if isinstance(cv, Const) else None), t.get("expected"), t.get("line")))
+                           (cv.v if isinstance(cv, Const) else None), t.get("expected"), t.get("line"), body.path))
             if k in ("drop", "assert"):
                 bi, si = t["target"], 0
                 continue
@@ -1142,6 +1182,14 @@ class Interp:
         self._model_cache[path] = m
         return m
 
+    def is_new_helper(self, body):
+        """a workspace function that does not exist in the reference tree (anchors/known_functions.json) was introduced
+        by a refactoring (extracted helper): no rule knows it, so it is analysed inline whatever the step list says"""
+        if body.crate not in ("stun_rs", "stun_agent"):
+            return False
+        known = _known_functions()
+        return bool(known) and body.path not in known
+
     def find_models(self, path):
         k = ("all", path)
         if k not in self._model_cache:
@@ -1157,6 +1205,8 @@ class Interp:
             self._ret_ty = TyRef(frame.body.types, frame.body.locals[d["l"]]["ty"])
         args = [self.operand(frame, a, st) for a in t["args"]]
         site = "%s:bb%d" % (frame.body.path, bi)
+        if frame.ctx:
+            site += "~" + frame.ctx
         if f["k"] != "const" or "fn" not in f:
             fv = self.operand(frame, f, st)
             if isinstance(fv, FnV):
@@ -1192,10 +1242,14 @@ class Interp:
             cands = self.prog.impl_candidates(fn["key"])
             if len(cands) == 1:
                 body = cands[0]
-        if body is not None and self.step_only is not None and not any(r.search(body.path) or r.search(body.key) for r in self.step_only):
+        if body is not None and self.step_only is not None and not any(r.search(body.path) or r.search(body.key) for r in self.step_only) \
+                and not self.is_new_helper(body):
             body = None
         if body is not None and not any(r.search(body.path) for r in self.opaque) and frame.depth < self.max_depth:
-            outs = self.call_body(body, args, st, frame.depth + 1)
+            ctx = frame.ctx
+            if self.is_new_helper(body):
+                ctx = site.rsplit(":", 1)[1]
+            outs = self.call_body(body, args, st, frame.depth + 1, ctx)
             return [(o.ret, o.st) for o in outs]
         return self.opaque_call(fn.get("rfull") if fn.get("resolved") and fn.get("rfull") else path, args, st, site, frame)
 
